@@ -31,7 +31,9 @@ RULE = ("(1) every cell of {%d identifiers: _, __, k, v, self, it, itertools, im
 BUILTINS_CALLED = ["type", "setattr", "hasattr", "globals", "locals", "iter", "next", "tuple", "list",
                    "slice", "classmethod", "__import__"]
 IDS = ["_", "__", "k", "v", "self", "it", "itertools", "importlib"] + BUILTINS_CALLED + \
-      ["___", "_k", "ol_x", "__olx", "__ol_k", "__ol", "__ol_itertools", "super", "getattr", "print", "len", "dict"]
+      ["___", "_k", "ol_x", "__olx", "__ol_k", "__ol", "__ol_itertools", "super", "getattr", "print", "len", "dict",
+       # names the symbol table gives to implicit scopes (hosts before 3.12 recognise them by name)
+       "listcomp", "genexpr", "setcomp", "dictcomp", "lambda_", "top"]
 # identifiers starting with the reserved prefix are outside the property ("not starting with __ol_")
 RESERVED = [i for i in IDS if i.startswith("__ol_")]
 
@@ -51,6 +53,7 @@ FEATS = {
     "from_import": "from math import floor as f0\nc0 = f0(2.5)\n",
     "destructure": "a0, (b0, *r0) = 1, (2, 3, 4)\nc0 = [a0, b0, r0]\n",
     "destructure2": "(a0, b0), d0, [e0, (f0, *g0)] = (1, 2), 3, [4, (5, 6)]\nc0 = [a0, b0, d0, e0, f0, g0]\n",
+    "chained_destr": "(a0, b0) = d0 = [1, 2]\n[e0, *f0] = g0 = h0 = (3, 4, 5)\nc0 = (a0, b0, d0, e0, f0, g0, h0 is g0)\n",
     "aug_sub": "d0 = {'q': 1}\nd0['q'] += 1\nl0 = [1, 2, 3]\nl0[0:1] += [9]\nc0 = (d0, l0)\n",
     "aug_attr": "class O0:\n    pass\no0 = O0()\no0.a = 1\no0.a += 1\nc0 = o0.a\n",
     "aug_name": "x0 = [1]\ny0 = x0\nx0 += [2]\nc0 = (x0, y0)\n",
@@ -73,7 +76,7 @@ FEATURE_BUILTINS = {
     "class_deco": ["type", "setattr"], "class_meta": ["type", "setattr"],
     "import": ["__import__"], "import_dotted": ["__import__"], "import_dotted_noalias": ["__import__"],
     "from_import": ["__import__", "globals", "locals"],
-    "destructure": ["tuple", "list"], "destructure2": ["tuple", "list"], "aug_sub": ["hasattr", "slice"], "aug_attr": ["hasattr", "setattr", "type"],
+    "destructure": ["tuple", "list"], "destructure2": ["tuple", "list"], "chained_destr": ["tuple", "list"], "aug_sub": ["hasattr", "slice"], "aug_attr": ["hasattr", "setattr", "type"],
     "aug_name": ["hasattr"], "slice_assign": ["slice"], "attr_assign": ["setattr", "type"], "chained": [],
     "global_store": ["globals"], "nonlocal": ["hasattr"], "if": [], "func_return": ["type", "setattr", "iter", "next"],
     "comprehension": [], "lambda": [], "for_walrus_iter": [],
@@ -87,6 +90,12 @@ ROLES = {
     "classname": "class {N}:\n    z0 = 41\n{F}print({N}.z0, c0)\n",
     "classattr": "class Q0:\n    {N} = 41\n{FI}print(Q0.{N}, Q0.c0)\n",
     "importalias": "import string as {N}\n{F}print({N}.digits, c0)\n",
+    # the identifier is a captured variable (kept in the nonlocal dictionary) AND a lambda's **kwargs / *args
+    "lambdastar": "def R0():\n    {N} = 41\n    def cap0():\n        nonlocal {N}\n        {N} += 1\n    cap0()\n    h0 = lambda *a1, **{N}: sorted({N})\n    i0 = lambda *{N}: len({N})\n{FI}    return {N}, h0(zz=1), i0(1, 2), c0\nprint(R0())\n",
+    # a global declaration three function levels below a local of the same name
+    "globalbelow": "{N} = 41\ndef R0():\n    {N} = 7\n    def mid0():\n        def in0():\n            global {N}\n            return {N}\n        return in0()\n    return mid0(), {N}\n{F}print(R0(), {N}, c0)\n",
+    # the identifier names a function that has parameters and holds a comprehension
+    "funcwithcomp": "def {N}(a1, b1=2):\n    return [e1 + a1 for e1 in range(b1)]\n{F}print({N}(1), c0)\n",
 }
 _OL = re.compile(r"__ol_[A-Za-z0-9_]+")
 FIXED_HELPERS = ("__ol_iter_wrapper",)
@@ -104,7 +113,8 @@ def cell_excluded(ident, role, feat, switches):
     if "user-binds-builtin-called-by-lowering" in switches and ident in BUILTINS_CALLED:
         used = set(FEATURE_BUILTINS[feat])
         # the role's own binding statement is lowered too
-        used |= set({"classname": ["type", "setattr"], "importalias": ["__import__"]}.get(role, []))
+        used |= set({"classname": ["type", "setattr"], "importalias": ["__import__"],
+                     "globalbelow": ["globals"], "lambdastar": ["hasattr"]}.get(role, []))
         if role == "classattr":
             return None   # a class attribute does not shadow a builtin for the generated code
         if ident in used:
@@ -330,6 +340,26 @@ def run(report):
     ns = env.NPROC * 4
     items = [(_matrix_shard, (i, ns, switches)) for i in range(ns)]
     items += [(_rename_shard, (env.sub_seed(report.seed, "C09", i), 40 if quick else 800, switches)) for i in range(env.NPROC)]
+    # host dimension: hosts before 3.12 recognise implicit scopes by NAME; every cell of the
+    # scope-like identifiers and a stride of the others run under the other hosts
+    from .. import hosts
+    others = hosts.available_other_hosts()
+    cases = []
+    for k, (n, r, f) in enumerate([(n, r, f) for n in IDS for r in ROLES for f in FEATS]):
+        if cell_excluded(n, r, f, switches):
+            continue
+        if n in ("listcomp", "genexpr", "setcomp", "dictcomp", "lambda_", "top") or k % (23 if quick else 5) == 0:
+            src = cell_source(n, r, f)
+            try:
+                compile(src, "<cell>", "exec")
+            except SyntaxError:
+                continue
+            cases.append((src, [env.ALL_CFGS[k % 8]]))
+    for h in others:
+        for j in range(2):
+            items.append((hosts.host_shard, (h, cases[j::2], {}, "identifier captured")))
+    report.extra["other_hosts"] = others
+    report.extra["host_cells_per_host"] = len(cases)
     for part in env.pmap(_call, items):
         report.absorb(part)
     report.exhaustive = True
